@@ -1,5 +1,5 @@
 From Coq Require Import ZArith List Bool Extraction ExtrOcamlBasic.
-From TP Require Import Model.Restart Spec.C09Judge.
+From TP Require Import Model.Restart Model.RestartTasks Spec.C09Judge.
 Import ListNotations.
 Extraction Language OCaml.
 (* the generated programs: program p adds 1 to every global and p+1+i to its variable i *)
@@ -7,4 +7,4 @@ Definition gen_body (p : nat) (g : list Z) (v : list Z) : list Z * list Z :=
   (map (fun x => (x + 1)%Z) g,
    (fix go (i : nat) (l : list Z) := match l with [] => [] | x :: r => (x + Z.of_nat (p + 1 + i))%Z :: go (S i) r end) 0%nat v).
 Definition step_gen := step gen_body.
-Extraction "../.cache/ml/c09_model.ml" step_gen fresh inst_vars judge Z.add Z.mul Z.opp Z.div_eucl.
+Extraction "../.cache/ml/c09_model.ml" step_gen fresh inst_vars judge ev_step ev_fresh Z.add Z.mul Z.opp Z.div_eucl.
